@@ -267,16 +267,24 @@ def strip(ex, p, s, chars=None, left=True, right=True):
         if chunks and all((isinstance(c, str) and not c.strip()) or
                           (isinstance(c, Atom) and c.incl is not None and c.incl <= WS) for c in chunks):
             return S('', s.kind)
-    # peel literal whitespace at the edges while the edge chunk is a literal
+    # peel whitespace at the edges: literal edge chunks are trimmed, atoms made only of stripped characters vanish
+    def only_ws(c):
+        return isinstance(c, Atom) and c.incl is not None and c.incl <= cs
     if left:
-        while chunks and isinstance(chunks[0], str):
+        while chunks and (isinstance(chunks[0], str) or only_ws(chunks[0])):
+            if only_ws(chunks[0]):
+                chunks.pop(0)
+                continue
             t = chunks[0].lstrip(''.join(cs))
             if t:
                 chunks[0] = t
                 break
             chunks.pop(0)
     if right:
-        while chunks and isinstance(chunks[-1], str):
+        while chunks and (isinstance(chunks[-1], str) or only_ws(chunks[-1])):
+            if only_ws(chunks[-1]):
+                chunks.pop()
+                continue
             t = chunks[-1].rstrip(''.join(cs))
             if t:
                 chunks[-1] = t
@@ -559,6 +567,11 @@ def parse_float(ex, p, v, node=None):
         return
     if hasattr(v, 'parse_float'):
         yield from v.parse_float(ex, p, node)
+        return
+    # a literal chunk with a character that no Python float literal contains: never a numeral
+    FLOATCHARS = set('0123456789+-.eE_infatyINFATY \t\n\r\x0b\x0c')
+    if any(isinstance(c, str) and any(ch not in FLOATCHARS for ch in c) for c in v.chunks):
+        yield p, Raised('ValueError', node=node)
         return
     z = v.z()
     ok = IS_NUM_TEXT(z)
